@@ -81,7 +81,21 @@ Inductive wact :=
 | RAttach (x : bool)             (* relay: Session() of x reads Init and registers *)
 | RReq (x : bool)                (* relay: the read goroutine of x handles the next request *)
 | RLoop (x : bool)               (* relay: one pass of the write loop of x *)
-| RDetach (x : bool).            (* relay: the call of x, whose stream is gone, returns *)
+| RDetach (x : bool)             (* relay: the call of x, whose stream is gone, returns *)
+| WDrop (x : bool) (req : bool) (k : nat).
+                                 (* message-dropping relay / network: the k-th queued request (req) or
+                                    response of x is lost; Init and Opened/Closed are never dropped *)
+
+Fixpoint remove_nth {A} (k : nat) (l : list A) : list A :=
+  match l, k with
+  | [], _ => []
+  | _ :: l', O => l'
+  | y :: l', S k' => y :: remove_nth k' l'
+  end.
+
+Definition droppable_req (r : request) : bool := match r with RInit => false | _ => true end.
+Definition droppable_resp (r : resp) : bool :=
+  match r with PRecv _ | PAck _ | PClear _ => true | _ => false end.
 
 Definition tag (x : bool) (l : list obs) : list (bool * obs) := map (fun o => (x, o)) l.
 
@@ -251,6 +265,18 @@ Definition wstep (w : world) (a : wact) : option (world * list (bool * obs)) :=
             Some (set_epoch (w_epoch w + 1) w2, [])
       | None => None
       end
+  | WDrop x req k =>
+      let sd := gs x w in
+      if req then
+        match nth_error (s_cq sd) k with
+        | Some r => if droppable_req r then Some (ss x (set_cq (remove_nth k (s_cq sd)) sd) w, []) else None
+        | None => None
+        end
+      else
+        match nth_error (s_rq sd) k with
+        | Some r => if droppable_resp r then Some (ss x (set_rq (remove_nth k (s_rq sd)) sd) w, []) else None
+        | None => None
+        end
   end.
 
 Definition wexec (w : world) (a : wact) : world * list (bool * obs) :=
